@@ -130,6 +130,20 @@ NumLits == {"0", "1", "2"}
 (* if cppcheck reports no node at that position, the operand stands in     *)
 (* its place (see Expected).                                               *)
 (***************************************************************************)
+(***************************************************************************)
+(* Root-cause classes of known deviations.  IOEnv.REPAIR selects a variant  *)
+(* of the printer that adds exactly the parentheses whose absence a known   *)
+(* cppcheck defect mishandles; the tree (and hence the meaning) is the same: *)
+(*   "sizeof"   every  sizeof e  is printed  sizeof ( e )   (the tokenizer's *)
+(*              Tokenizer::sizeofAddParentheses need not find the operand)   *)
+(*   "notcast"  ! ( T ) e  is printed  ! ( ( T ) e )   (the pattern          *)
+(*              "! ( %name% )" of simplifyRedundantParentheses cannot match) *)
+(* A disputed statement belongs to the class iff its repaired print is       *)
+(* judged correct (MODE = "repair" writes the repaired statements, the       *)
+(* usual judge decides).  Anything else keeps its own per-statement key.     *)
+(***************************************************************************)
+Repair == IF "REPAIR" \in DOMAIN IOEnv THEN IOEnv.REPAIR ELSE ""
+
 RECURSIVE Lay(_, _), ArgsLay(_, _)
 \* the layout of child t in a position that demands level >= min
 Child(t, min, cpp) == IF Prec(t) < min THEN Par(Lay(t, cpp)) ELSE Lay(t, cpp)
@@ -157,7 +171,9 @@ Lay(t, cpp) ==
          IN  [toks |-> L.toks \o <<t.op>> \o R.toks, root |-> o,
               edges |-> L.edges \cup R.edges \cup {<<o, L.root, R.root>>}, opt |-> L.opt \cup R.opt]
     [] t.k = "pre" ->
-         LET X == Move(IF t.op \in {"++", "--"} THEN UChild(t.x, cpp) ELSE Child(t.x, 16, cpp), 1)
+         LET X == Move(IF t.op \in {"++", "--"} THEN UChild(t.x, cpp)
+                       ELSE IF Repair = "notcast" /\ t.op = "!" /\ t.x.k = "cast" THEN Par(Lay(t.x, cpp))
+                       ELSE Child(t.x, 16, cpp), 1)
          IN  [toks |-> <<t.op>> \o X.toks, root |-> 1, edges |-> X.edges \cup {<<1, X.root, 0>>},
               opt |-> X.opt \cup (IF t.op = "+" \/ (t.op = "-" /\ t.x.k = "leaf" /\ t.x.s \in NumLits) THEN {1}
                                   ELSE IF t.op = "-" THEN {-1} ELSE {})]
@@ -194,7 +210,7 @@ Lay(t, cpp) ==
     [] t.k = "szE" ->
          \* sizeof unary-expression.  If the operand had to be parenthesised as a whole, that "(" is the node;
          \* otherwise the node is the parenthesis the tokenizer inserts after sizeof (named -1 here).
-         IF Prec(t.x) < 16 \/ t.x.k = "cast"
+         IF Repair = "sizeof" \/ Prec(t.x) < 16 \/ t.x.k = "cast"
          THEN LET X == Move(Lay(t.x, cpp), 2)
               IN  [toks |-> <<"sizeof", "(">> \o X.toks \o <<")">>, root |-> 2, edges |-> X.edges \cup {<<2, 1, X.root>>}, opt |-> X.opt]
          ELSE LET X == Move(Lay(t.x, cpp), 1)
@@ -456,6 +472,7 @@ BigSample(pf, perFamily) ==
 (*   gen    write the cases: [id, n, toks] (+ tree for the judge)          *)
 (*   judge  read cases + observations, compare with Ast, write mismatches  *)
 (*   subs   write the sub-expressions of disputed cases as cases            *)
+(*   repair write disputed cases in a repaired print (root-cause classes)   *)
 (*   clang  compare the tree shape clang reports with the tree of the case *)
 (***************************************************************************)
 Mode == IF "MODE" \in DOMAIN IOEnv THEN IOEnv.MODE ELSE "none"
@@ -505,6 +522,14 @@ ASSUME Mode = "subs" =>
          /\ ndJsonSerialize(IOEnv.OUT, [k \in DOMAIN SubCases |-> [id |-> k, parent |-> Cases[SubCases[k][1]].id, n |-> Size(SubCases[k][2]),
                                                                    toks |-> PrintExpr(SubCases[k][2], IsCpp), t |-> SubCases[k][2]]])
          /\ PrintT(<<"SUBS", Len(SubCases)>>)
+
+\* repair: the disputed cases of IOEnv.CASES (with their normal print in toks) printed in the variant IOEnv.REPAIR;
+\* only those whose print changes are written (the others do not contain the construct)
+RepairIdx == SelectSeq([i \in DOMAIN Cases |-> i], LAMBDA i : PrintExpr(Cases[i].t, IsCpp) # Cases[i].toks)
+ASSUME Mode = "repair" =>
+         /\ ndJsonSerialize(IOEnv.OUT, [k \in DOMAIN RepairIdx |-> [id |-> Cases[RepairIdx[k]].id, n |-> Size(Cases[RepairIdx[k]].t),
+                                                                    toks |-> PrintExpr(Cases[RepairIdx[k]].t, IsCpp), t |-> Cases[RepairIdx[k]].t]])
+         /\ PrintT(<<"REPAIRED", Len(RepairIdx)>>)
 
 \* clang: IOEnv.CASES = the disputed cases [id, t, ...], IOEnv.OBS = [id, status, t] with the tree read off clang's AST dump
 ClangAgrees(i) == Obs[i].status = "ok" /\ Obs[i].t = Cases[i].t
